@@ -20,11 +20,39 @@ def b(x):
     return "true" if x else "false"
 
 
+class _FakeAPI:
+    def __init__(self, dialect):
+        from splink.internals.dialects import SplinkDialect
+        self.sql_dialect = SplinkDialect.from_string(dialect)
+
+
+def salt_is_uniform(expr, dialect: str) -> bool:
+    """The salt must be a random number in [0, 1): `random()` where the engine's random() is
+    one (DuckDB, Spark, Postgres), and for SQLite - whose random() is a signed 64-bit integer -
+    exactly `random() / 2^64 + 0.5`."""
+    x = expr
+    while isinstance(x, E.Paren):
+        x = x.this
+    if dialect != "sqlite":
+        return x.sql(dialect="duckdb").lower() == "random()"
+    if not isinstance(x, E.Add):
+        return False
+    d, half = x.this, x.expression
+    while isinstance(d, E.Paren):
+        d = d.this
+    if not (isinstance(d, E.Div) and isinstance(half, E.Literal) and float(half.this) == 0.5):
+        return False
+    num, den = d.this, d.expression
+    return (num.sql(dialect="sqlite").lower() == "random()" and isinstance(den, E.Literal)
+            and not den.is_string and "." in den.this and float(den.this) == 2.0 ** 64)
+
+
 class FakeDF:
-    def __init__(self, name, cols):
+    def __init__(self, name, cols, dialect="duckdb"):
         self.physical_name = name
         self.templated_name = name + "_t"
         self._cols = cols
+        self.db_api = _FakeAPI(dialect)
 
     @property
     def columns_escaped(self):
@@ -110,14 +138,14 @@ def concat_terms():
     from splink.internals.vertically_concatenate import vertically_concatenate_sql
     out = []
     sds = InputColumn("source_dataset", sqlglot_dialect_str="duckdb")
-    for ntab in (2, 3):
-        for salt in (False, True):
+    for ntab, salt, dialect in [(n, sl, d) for n in (2, 3) for sl in (False, True) for d in ("duckdb", "sqlite")]:
+        if True:
             # every table lists the same columns in its own order: the SELECTs must all use
             # the FIRST table's order (UNION ALL is positional)
             base_cols = ["unique_id", "a", "b"]
-            tabs = {f"t{i}": FakeDF(f"phys{i}", base_cols[i % 3:] + base_cols[:i % 3]) for i in range(ntab)}
+            tabs = {f"t{i}": FakeDF(f"phys{i}", base_cols[i % 3:] + base_cols[:i % 3], dialect) for i in range(ntab)}
             sql = vertically_concatenate_sql(tabs, salting_required=salt, source_dataset_input_column=sds)
-            t = sqlglot.parse_one(sql, read="duckdb")
+            t = sqlglot.parse_one(sql, read=dialect)
             sels, union_all = [], True
 
             def walk(x):
@@ -138,10 +166,10 @@ def concat_terms():
                 lit = [e for e in s.expressions if e.alias == "source_dataset" and isinstance(e.this, E.Literal) and e.this.this == df.templated_name]
                 sds_ok &= len(lit) == 1
                 has_salt = [e for e in s.expressions if e.alias == "__splink_salt"]
-                salt_ok &= (len(has_salt) == 1 and has_salt[0].this.sql(dialect="duckdb").lower() == "random()") if salt else not has_salt
+                salt_ok &= (len(has_salt) == 1 and salt_is_uniform(has_salt[0].this, dialect)) if salt else not has_salt
                 cols_ok &= [n for n in names if n not in ("source_dataset", "__splink_salt")] == ["unique_id", "a", "b"]
                 cols_ok &= s.args.get("where") is None and s.args["from_"].this.name == df.physical_name
-            out.append((f"concat ntab={ntab} salt={salt}",
+            out.append((f"concat ntab={ntab} salt={salt} {dialect}",
                         f"{{| cs_union_all := {b(union_all)}; cs_sds_literal_each := {b(sds_ok)}; cs_salt_random := {b(salt_ok)}; "
                         f"cs_same_columns_each := {b(cols_ok)}; cs_one_select_per_table := {b(len(sels) == ntab)} |}}"))
     return out
